@@ -118,7 +118,7 @@ package container
 //@   ensures n > 0 && n > clen(c) ==> len(r0) == clen(c)
 //@   ensures elems(c.compartments) == old(elems(c.compartments))
 //@   loop 0 invariant c.offset <= i && i <= len(c.compartments)
-//@   loop 0 invariant 0 <= n && n < old(n) && copySlice == slice[n:] && len(slice) == old(n) && cap(slice) == old(n) && fresh(slice)
+//@   loop 0 invariant 0 <= n && n < old(n) && n <= len(slice) && copySlice == slice[n:] && len(slice) == (old(n) > clen(c) ? clen(c) : old(n)) && cap(slice) == len(slice) && fresh(slice)
 //@   loop 0 invariant elems(c.compartments) == old(elems(c.compartments))
 //@   loop 0 invariant n == sumRow(elems(c.compartments), soff(c.compartments) + c.offset, soff(c.compartments) + i)
 //@   loop 0 use L-sum-top(elems(c.compartments), soff(c.compartments) + c.offset, soff(c.compartments) + i + 1)
